@@ -1,159 +1,174 @@
 """MANIFEST texts per property (kept next to propcfg; tools/gen_manifest.py writes MANIFEST.json from it)."""
 META = {
-    'C15': {
-        'text': 'Every obligation generated from the real skip_tag / decode_length / skip_tag_length_contents / decode_full_length / '
-                'read_tag bodies against the X.690 8.1.2/8.1.3 spec functions (tag_end, len_value, tlv_end) is discharged for all byte '
-                'strings and offsets, unbounded: the length probe returns tlv_end once identifier and length octets are present, None '
-                'before, never another number; exceptional behaviour is exact (raises iff).',
-        'note': 'Trusted: pyvc semantics of the Python subset, z3, builtin axioms (hexlify/int, slicing, IndexError), spec functions as the '
-                'reading of X.690. decode_with_length == (decode, len) for whole type graphs rests on the per-class decode contracts '
-                '(composition argued, not mechanised).',
-        'technique': 'contracts + weakest-precondition style VC generation over the python ast, z3; lemmas by induction',
-    },
-    'C18': {
-        'text': 'Frame obligations (assigns is a subset of owned) for every write site of every function reachable from '
-                'Specification/CompiledType encode/decode/decode_with_length/decode_length in all codecs and both checkers: nothing but '
-                'per-call objects (Encoder/Decoder/bytearray/result containers/in-flight exception) is written, inputs are not mutated; '
-                'hence every call is a function of its arguments, for any history and any interleaving.',
-        'note': 'Syntactic, conservative ownership analysis (method resolution by name per codec family); CPython builtins assumed '
-                're-entrant; compile-time aliasing between compiled types is C19, not this check.',
-        'technique': 'ownership/frame contracts checked by pyvc-own (no SMT)',
-        'engine': 'pyvc-own',
-    },
-    'C03': {
-        'text': 'Every obligation generated from the DER/BER encoder primitives (encode_length_definite, encode_tag, encode_signed_integer, '
-                'Boolean/Integer/OctetString/BitString/Enumerated contents, Null, the TLV wrapper StandardEncodeMixin.encode for every '
-                'concrete class, der.BitString.encode) against X.690 spec functions is discharged for all inputs; plus copy-before-write '
-                'frame obligations on the compile-time specialisation of cached types.',
-        'note': 'Not covered: SET ordering, SET OF sorting, DEFAULT omission in MembersType, named-bit zero stripping, time/REAL. '
-                'Spec functions are my reading of X.690 (cross-checked natively against the code on generated inputs).',
-        'technique': 'contracts + VC generation over the python ast, z3; lemmas by induction; pyvc-own for copy-before-write',
-    },
-    'C04': {
-        'text': 'Progress/termination and form-acceptance contracts of the BER decoder kernel: decode_length accepts every definite form '
-                '(any number of length octets) and the indefinite form, end-of-contents detection, primitive and constructed tag forms, '
-                'constructed segment loops; all obligations discharged for unbounded input.',
-        'note': 'Reduced: the order-insensitive member loop and value-level equality of re-serialised encodings are not proved.',
-        'technique': 'contracts + VC generation over the python ast, z3',
-    },
-    'C05': {
-        'text': 'Exact contracts of the PER/UPER Encoder/Decoder primitives against X.691 clause 11 (alignment, length determinant, '
-                'normally small numbers, constrained whole numbers), all obligations discharged.',
-        'note': 'Reduced to the numeric core; type classes not under contract yet; accumulator <= 4096 bits for exactness.',
-        'technique': 'contracts + VC generation over the python ast, z3; bit-string algebra lemmas (pow2_add, cat_bound) by induction',
-    },
-    'C06': {
-        'text': 'Exact contracts of the OER Encoder/Decoder primitives and of INTEGER width selection (X.696 10), BOOLEAN, fixed-size '
-                'BIT STRING/OCTET STRING decode; all obligations discharged.',
-        'note': 'Reduced to the numeric core and leaf types listed; containers not under contract yet.',
-        'technique': 'contracts + VC generation over the python ast, z3; bit-string algebra lemmas by induction',
-    },
-    'C07': {
-        'text': 'Skip contracts: unknown CHOICE alternative skipped by exactly tlv_end, extensible ENUMERATED unknown value -> None, '
-                'checked skip_bits in PER/OER; all obligations discharged.',
-        'note': 'Reduced: SEQUENCE addition decoding in PER/OER/BER containers is not under contract yet.',
-        'technique': 'contracts + VC generation over the python ast, z3',
-    },
-    'C08': {
-        'text': 'Termination (a decreases measure on every while loop) and progress contracts for the BER/DER/OER decode kernels, '
-                'plus frame obligations on all decode paths (no shared state written).',
-        'note': 'Reduced: member loops of SEQUENCE/SET, PER chunk generators, JER/XER library calls are outside the kernel.',
-        'technique': 'contracts with decreases measures + VC generation, z3; pyvc-own frame check',
-    },
-    'C11': {
-        'text': 'iff-contracts on the constraints checker (raises ConstraintsError exactly when the declared single range / size / '
-                'alphabet is violated; extensible => not enforced; every list element visited; CHOICE) discharged for all values.',
-        'note': 'Bound resolution in the compiler and SEQUENCE traversal are not under contract yet.',
-        'technique': 'contracts (raises-iff) + VC generation over the python ast, z3 (strings, quantified loop invariants)',
-    },
-    'C16': {
-        'text': 'Checked-read contracts on every decoder primitive of BER (decode_length, skip_tag, tag comparison), PER and OER '
-                '(read_bit, read_bits, read_non_negative_binary_integer, skip_bits, peek_bit, ...): too few bits => the library decode '
-                'error, view unchanged, and no other exception type on that path.',
-        'note': 'The prefix/consumption meta-lemmas that lift this to whole encodings are argued, not mechanised.',
-        'technique': 'contracts with exceptional postconditions (raises-iff) + VC generation, z3',
-    },
-    'C12': {
-        'text': 'raises-iff contracts on every leaf of the type checker (well-typed values are never rejected, ill-typed ones always), '
-                'and exceptional postconditions on the CHOICE / Recursive / CompiledType wrappers of the type checker, the '
-                'constraints checker and the BER/XER codecs: the error location ends with the component just traversed.',
-        'note': 'Reduced: SEQUENCE/SET member loops and the PER/OER/JER/GSER wrappers are not under contract; foreign exceptions of '
-                'the codecs for values that passed the checks are only covered where an encode contract exists.',
-        'technique': 'contracts with exceptional postconditions + VC generation over the python ast, z3',
-    },
-    'C17': {
-        'category': 'other',
-        'text': 'Key-determines-result for the compile cache as data-flow obligations on the real AST of _compile_files_cache and '
-                'compile_files (9 obligations): every input of the miss branch flows into the key, raw file bytes, length-prefixed '
-                'framing, prefix-free codec names, identical arguments on the cached and uncached paths.',
-        'note': 'Crash points, damaged cache files and diskcache/sqlite semantics are assumed, not decided; this is a static data-flow '
-                'argument, not an SMT proof.',
-        'technique': 'data-flow obligations over the python ast (no SMT)',
-        'engine': 'pyvc-own',
-    },
-    'C14': {
-        'category': 'other',
-        'text': 'BOUNDED, not a proof: the comment-blanking pre-pass is compared with a reference automaton of X.680 12.6 (comments '
-                'blanked, newlines kept, nothing inside "..." is a comment) on every string up to length 7 (quick) / 9 (thorough) over '
-                'the six comment-relevant characters; plus 3 data-flow obligations on parse_string.',
-        'note': 'The grammar half of the property (white space between the words of multi-word keywords) is not decidable by a '
-                'contract on this code and is not claimed. No deductive obligation covers ignore_comments itself.',
-        'technique': 'bounded exhaustive comparison with a reference automaton (stand-in) + data-flow obligations over the ast',
-        'engine': 'native-crosscheck',
-    },
-    'C19': {
-        'category': 'other',
-        'text': 'Reduced scope: frame obligations (copy-before-write) on Compiler.compile_member / compile_type of every codec and '
-                'module-threading data-flow obligations on the type-resolution functions of codecs/compiler.py. These are the two '
-                'mechanisms of the property that reduce to per-function obligations; the relational statement over reorganised '
-                'specifications is not decided.',
-        'note': 'Not covered: DEFAULT conversion through references, transitive aliasing through ExplicitTag.inner, permutations.',
-        'technique': 'ownership/frame obligations (pyvc-own) + data-flow obligations over the ast (no SMT)',
-        'engine': 'pyvc-own',
-    },
-    'C13': {
-        'category': 'other',
-        'text': 'Reduced scope: module-threading data-flow obligations on the COMPONENTS OF expansion and type resolution, and '
-                'copy-before-write frame obligations; idempotence of the in-place rewriting passes is not decided.',
-        'note': 'Not covered: idempotence/option independence of pre_process passes (known defect 12 open), pformat/eval fidelity.',
-        'technique': 'data-flow obligations over the ast + ownership/frame obligations (no SMT)',
-        'engine': 'pyvc-own',
-    },
-    'C01': {
-        'text': 'Reduced to the leaf kernel: every encode/decode pair under contract is specified against the same spec function, and '
-                'the inverse property is a lemma over the spec functions proved by induction in the same engine (two\'s complement '
-                'round trip, big-endian octets, DER length octets, bit-field read-after-append); all obligations discharged.',
-        'note': 'Not covered: containers, strings, time types, OBJECT IDENTIFIER (known defect 1: 2.40 decodes as 3.0 is still open), '
-                'REAL (floating point is outside this family: no stand-in built).',
-        'technique': 'contracts against shared spec functions + inverse lemmas by induction, z3',
-    },
-    'C20': {
-        'text': 'Reduced to the leaf kernel: every GSER leaf encoder under contract equals its RFC 3641 spec function (character '
-                'strings with doubled quotation marks, BOOLEAN, INTEGER, NULL, ENUMERATED, CHOICE) and the top-level '
-                '"name Type ::= value" wrapper embeds the value text unchanged; all obligations discharged.',
-        'note': 'Not covered: exact text of SEQUENCE/SET/OF, BIT/OCTET STRING, REAL; injectivity of the notation is argued, not proved.',
-        'technique': 'contracts against RFC 3641 spec functions + VC generation over the python ast, z3 strings',
-    },
-    'C02': {
-        'not_applicable': 'JER/XER correctness is a statement about the documents json.dumps/json.loads, float repr and '
-            'xml.etree.ElementTree (tostring / fromstring, escaping of <, &, quotes) produce and accept: every step that decides '
-            'well-formedness and round-trip happens inside those C/stdlib functions, for which a contract could only be assumed, '
-            'never discharged, and the JSON/XML grammars over unbounded strings and IEEE-754 repr/float round-trip are outside what '
-            'z3/cvc5 decide (string-theory queries over replace chains and int(s[a:b]) already stay unknown).  Contracts on the thin '
-            'asn1tools mapping code alone would prove nothing the property states; a differential fuzzer would decide it but is a '
-            'different technique family.',
-    },
-    'C09': {
-        'not_applicable': 'The property is about the behaviour of C programs that asn1tools/source/c/uper.py emits as text for every '
-            'accepted specification (equivalence with the Python UPER codec, buffer errors, memory safety).  A contract on the Python '
-            'generator can only speak about the strings it returns; stating C semantics of those strings needs a deductive C '
-            'verifier (Frama-C/WP, VST, VeriFast) and none is installed, and a proof would have to be generic over all generated '
-            'programs (a verified compiler), which is not within reach of per-function contracts.  Compile-and-compare under '
-            'ASan/UBSan would decide instances but is differential testing, not this family.',
-    },
-    'C10': {
-        'not_applicable': 'Same situation as C09 for asn1tools/source/c/oer.py: the subject is the generated C text (extension-addition '
-            'presence masks, skipping of unknown additions, buffer-size errors, absence of UB), not a Python function result that a '
-            'contract can constrain; no deductive verifier for C is installed and the claim quantifies over all generated programs.',
-    },
+    'C01': {   'note': 'Not proved: the structural induction over whole compiled type graphs (argued in DESIGN.md), text '
+            'decoding of primitive strings (bytes.decode is an assumed builtin), time types, REAL beyond the integer '
+            'part (floats are opaque). Open known finding F27 (OER UTF8String with a fixed SIZE).',
+    'technique': 'contracts against shared spec functions + inverse lemmas by induction, z3',
+    'text': 'Leaf kernel + container plumbing: every encode/decode pair under contract is specified against the same '
+            'spec functions (be_val, tc_val, lv, bit-stream algebra, X.691/X.696 length and tag forms) and the '
+            'inverse property is a lemma over them proved by induction in the same engine; DEFAULT omission and "no '
+            'component dropped" contracts on SEQUENCE encode/decode (BER, PER, OER, GSER counters), PER addition '
+            'groups, OER/PER/UPER string and integer classes, Specification.encode/decode (checks before bytes); all '
+            'obligations discharged.'},
+    'C02': {   'not_applicable': 'JER/XER correctness is a statement about the documents json.dumps/json.loads, float repr and '
+                      'xml.etree.ElementTree (tostring / fromstring, escaping of <, &, quotes) produce and accept: '
+                      'every step that decides well-formedness and round-trip happens inside those C/stdlib '
+                      'functions, for which a contract could only be assumed, never discharged, and the JSON/XML '
+                      'grammars over unbounded strings and IEEE-754 repr/float round-trip are outside what z3/cvc5 '
+                      'decide (string-theory queries over replace chains and int(s[a:b]) already stay unknown).  '
+                      'Contracts on the thin asn1tools mapping code alone would prove nothing the property states; a '
+                      'differential fuzzer would decide it but is a different technique family.'},
+    'C03': {   'note': 'Not covered: sort key for tag numbers >= 16384 (known, listed in DESIGN.md), time types, REAL contents '
+            'beyond the integer part. The sortedness / cleaning obligations are data-flow obligations over the AST, '
+            'not SMT proofs (sorted() and bytes.rstrip are assumed builtins).',
+    'technique': 'contracts + VC generation over the python ast, z3; lemmas by induction; pyvc-own for '
+                 'copy-before-write',
+    'text': 'Every obligation generated from the DER/BER encoder primitives (encode_length_definite == the minimal '
+            'definite form, encode_tag == tag_octets for every class of both codecs incl. the class bits kept by '
+            "set_tag, minimal two's complement integers, BOOLEAN 0xFF, BIT STRING unused bits, the TLV wrapper for "
+            'every concrete class, DEFAULT omission in encode_member, OID subidentifiers) is discharged for all '
+            'inputs; data-flow obligations: SET components sorted by tag, SET OF encodings sorted, named-bit BIT '
+            'STRING cleaned, copy-before-write (also through wrapper types), memo keys, set_tag definitions all '
+            'under contract.'},
+    'C04': {   'note': 'The permutation argument for SET (any order accepted) beyond one round and value equality of '
+            're-serialised encodings for whole type graphs are argued, not mechanised.',
+    'technique': 'contracts + VC generation over the python ast, z3',
+    'text': 'BER decoder kernel for unbounded input: decode_length accepts every definite form and the indefinite '
+            'form, end-of-contents detection, primitive and constructed identifier forms (both identifier octets of '
+            'string-like CHOICE alternatives), constructed segment loops (definite length ends exactly, an empty '
+            'constructed string consumes nothing), text decoding on the concatenation of the segments, '
+            'decode_members incl. "no member dropped per round" (ghost counters); all obligations discharged.'},
+    'C05': {   'note': 'Accumulator <= 4096 bits for exact value postconditions (the chunk list is not tracked); fragmented (>= '
+            '16K) forms are abstract (generator functions are outside the subset); Decoder.read_bits: the '
+            'int/hex/unhexlify string facts are a listed assumption. Open known finding F25 (INTEGER (lb..MAX) is '
+            'not encoded as a semi-constrained whole number). Oracle questions 23/24/26 of DESIGN.md section 6 are '
+            'not claimed.',
+    'technique': 'contracts + VC generation over the python ast, z3; bit-string algebra lemmas (pow2_add, cat_bound) '
+                 'by induction',
+    'text': 'PER/UPER Encoder/Decoder primitives against X.691 11 with exact value and exact consumption (length '
+            'determinant, normally small numbers, constrained whole numbers incl. the aligned forms), and the type '
+            'classes INTEGER (aligned and unaligned), ENUMERATED, BOOLEAN, OCTET STRING, BIT STRING, '
+            'known-multiplier strings, SEQUENCE OF, SEQUENCE preamble / additions / addition groups, CHOICE root and '
+            'additions; all obligations discharged.'},
+    'C06': {   'note': 'Open known finding F27 (UTF8String with a fixed SIZE is written without a length). Time types, REAL and '
+            'OBJECT IDENTIFIER of the OER codec are not under contract.',
+    'technique': 'contracts + VC generation over the python ast, z3; bit-string algebra lemmas by induction',
+    'text': 'OER Encoder/Decoder primitives with exact tag / length / integer consumption (X.696 8.6, 8.7, 10), '
+            'INTEGER width selection and fixed-width forms (struct.pack model), BOOLEAN, ENUMERATED, BIT/OCTET '
+            'STRING, character strings, CHOICE, SEQUENCE preamble and additions bitmap, SEQUENCE OF, and the '
+            'whole-octet invariant through every encoder up to CompiledType.encode; all obligations discharged.'},
+    'C07': {   'note': 'JER/XER (not applicable, see C02) and the generated C (C09/C10) are outside.',
+    'technique': 'contracts + VC generation over the python ast, z3',
+    'text': 'Skip contracts with exact consumption: an unknown CHOICE alternative is skipped by exactly tlv_end '
+            '(BER), by its length prefix (OER), by index + alignment + open type (aligned PER) and reported as '
+            '(None, None); an unknown ENUMERATED value of an extensible type consumes exactly what a known one does; '
+            'SEQUENCE additions: a present addition -- known or not, empty or not -- takes its length determinant '
+            'plus the announced octets, an absent one nothing (PER invariant, OER/PER presence-guard obligations); '
+            'all obligations discharged.'},
+    'C08': {   'note': 'Generator-based fragment loops of PER (>= 16K items) and the JER/XER library calls are outside the '
+            'kernel; work per element is not bounded by a cost model, only loop termination and allocation sizes '
+            'are.',
+    'technique': 'contracts with decreases measures + VC generation, z3; pyvc-own frame check',
+    'text': 'Termination (a decreases measure on every while loop, for-loops over finite sequences) and progress '
+            'contracts for the BER/DER/OER/PER decode kernels, allocation obligations (a container sized by a '
+            'decoded number is bounded by the input size), frame obligations on all decode paths (no shared state '
+            'written).'},
+    'C09': {   'not_applicable': 'The property is about the behaviour of C programs that asn1tools/source/c/uper.py emits as '
+                      'text for every accepted specification (equivalence with the Python UPER codec, buffer errors, '
+                      'memory safety).  A contract on the Python generator can only speak about the strings it '
+                      'returns; stating C semantics of those strings needs a deductive C verifier (Frama-C/WP, VST, '
+                      'VeriFast) and none is installed, and a proof would have to be generic over all generated '
+                      'programs (a verified compiler), which is not within reach of per-function contracts.  '
+                      'Compile-and-compare under ASan/UBSan would decide instances but is differential testing, not '
+                      'this family.'},
+    'C10': {   'not_applicable': 'Same situation as C09 for asn1tools/source/c/oer.py: the subject is the generated C text '
+                      '(extension-addition presence masks, skipping of unknown additions, buffer-size errors, '
+                      'absence of UB), not a Python function result that a contract can constrain; no deductive '
+                      'verifier for C is installed and the claim quantifies over all generated programs.'},
+    'C11': {   'note': 'Bound resolution in the compiler (get_size_range / get_restricted_to_range) is not under contract.',
+    'technique': 'contracts (raises-iff) + VC generation over the python ast, z3 (strings, quantified loop '
+                 'invariants)',
+    'text': 'iff-contracts on the constraints checker (ConstraintsError exactly when the declared range / size / '
+            'alphabet is violated; extensible => not enforced; every list element and dictionary member visited; '
+            'CHOICE; set_range / has_lower_bound / has_upper_bound) discharged for all values.'},
+    'C12': {   'note': 'JER is outside (C02). add_location itself is under contract on the identity model of path elements '
+            'only.',
+    'technique': 'contracts with exceptional postconditions + VC generation over the python ast, z3',
+    'text': 'raises-iff contracts on every leaf of the type checker, and exceptional postconditions (located_at) on '
+            'the CHOICE / SEQUENCE member / Recursive / CompiledType wrappers of the type checker, the constraints '
+            'checker and the BER, PER/UPER, OER, XER and GSER codecs: the error location ends with the component '
+            'just traversed; "never a foreign exception" on every encoder under contract (KeyError / TypeError / '
+            'struct.error cases were repaired, see known_findings.json).'},
+    'C13': {   'category': 'other',
+    'engine': 'pyvc-own',
+    'note': 'Not covered: option-dependent rewriting (numeric_enums differs between two compiles of one dictionary, '
+            'known defect 12), pformat/eval fidelity of .py specifications.',
+    'technique': 'data-flow obligations over the ast + ownership/frame obligations (no SMT)',
+    'text': 'Data-flow obligations over the real AST of codecs/compiler.py and asn1tools/__init__.py (no SMT): every '
+            'type reaches every in-place pass, module threading through lookups, copy-before-write, memo / table '
+            'keys cover their inputs (also sys.modules-style tables), guarded rewrite (a pass leaves already '
+            'converted values alone), defaults converted on the resolved type.'},
+    'C14': {   'category': 'other',
+    'engine': 'native-crosscheck',
+    'note': 'The grammar half of the property (white space between the words of multi-word keywords) is not '
+            'decidable by a contract on this code and is not claimed. No deductive obligation covers ignore_comments '
+            'itself.',
+    'technique': 'bounded exhaustive comparison with a reference automaton (stand-in) + data-flow obligations over '
+                 'the ast',
+    'text': 'BOUNDED, not a proof: the comment-blanking pre-pass is compared with a reference automaton of X.680 '
+            '12.6 (comments blanked, newlines kept, nothing inside "..." is a comment) on every string up to length '
+            '7 (quick) / 9 (thorough) over the six comment-relevant characters; plus 3 data-flow obligations on '
+            'parse_string.'},
+    'C15': {   'note': 'Trusted: pyvc semantics of the Python subset, z3, builtin axioms (hexlify/int, slicing, IndexError), '
+            'spec functions as the reading of X.690. decode_with_length == (decode, len) for whole type graphs rests '
+            'on the per-class decode contracts (composition argued, not mechanised).',
+    'technique': 'contracts + weakest-precondition style VC generation over the python ast, z3; lemmas by induction',
+    'text': 'Every obligation generated from the real skip_tag / decode_length / skip_tag_length_contents / '
+            'decode_full_length / read_tag bodies against the X.690 8.1.2/8.1.3 spec functions (tag_end, len_value, '
+            'tlv_end) is discharged for all byte strings and offsets, unbounded: the length probe returns tlv_end '
+            'once identifier and length octets are present, None before, never another number; exceptional behaviour '
+            'is exact (raises iff).'},
+    'C16': {   'note': 'The prefix/consumption meta-lemmas that lift this to whole encodings are argued, not mechanised.',
+    'technique': 'contracts with exceptional postconditions (raises-iff) + VC generation, z3',
+    'text': 'Checked-read contracts on every decoder primitive of BER (decode_length, skip_tag, tag comparison), PER '
+            'and OER (read_bit, read_bits, read_bytes, read_non_negative_binary_integer, skip_bits, peek_bit, length '
+            '/ tag / integer readers): too few bits => the library decode error, view unchanged, and no other '
+            'exception type on that path; every type-class decoder under contract only raises the listed library '
+            'errors.'},
+    'C17': {   'category': 'other',
+    'engine': 'pyvc-own',
+    'note': 'Crash points, damaged cache files and diskcache/sqlite/pickle semantics are assumed, not decided; this '
+            'is a static data-flow argument, not an SMT proof.',
+    'technique': 'data-flow obligations over the python ast (no SMT)',
+    'text': 'Key-determines-result for the compile cache as data-flow obligations on the real AST of '
+            '_compile_files_cache and compile_files: every input of the miss branch flows into the key through '
+            'value-preserving constructors only, raw file bytes, length-prefixed framing, prefix-free codec names, '
+            'identical arguments on the cached and uncached paths, default pickling of every class (a hit returns '
+            'what the miss stored).'},
+    'C18': {   'engine': 'pyvc-own',
+    'note': 'Syntactic, conservative ownership analysis (method resolution by name per codec family); CPython '
+            'builtins assumed re-entrant; compile-time aliasing between compiled types is C19, not this check.',
+    'technique': 'ownership/frame contracts checked by pyvc-own (no SMT)',
+    'text': 'Frame obligations (assigns is a subset of owned) for every write site of every function reachable from '
+            'Specification/CompiledType encode/decode/decode_with_length/decode_length in all codecs and both '
+            'checkers: nothing but per-call objects (Encoder/Decoder/bytearray/result containers/in-flight '
+            'exception) is written, inputs are not mutated; hence every call is a function of its arguments, for any '
+            'history and any interleaving.'},
+    'C19': {   'category': 'other',
+    'engine': 'pyvc-own',
+    'note': 'The relational statement over reorganised specifications (permutations of assignments, modules, files) '
+            'is not decided; OBJECT IDENTIFIER defaults through a reference are a known uncovered defect (DESIGN.md '
+            'I.3).',
+    'technique': 'ownership/frame obligations (pyvc-own) + data-flow obligations over the ast (no SMT)',
+    'text': 'Data-flow / frame obligations (no SMT): copy-before-write in compile_member / compile_type of every '
+            'codec, also through wrapper types (ExplicitTag), module threading on type resolution, memo / table keys '
+            'include the module, decisions are taken on the resolved descriptor, defaults converted on the resolved '
+            'type.'},
+    'C20': {   'note': 'Not covered: exact text of SEQUENCE/SET/OF layout, OCTET STRING, REAL; injectivity of the notation is '
+            'argued, not proved.',
+    'technique': 'contracts against RFC 3641 spec functions + VC generation over the python ast, z3 strings',
+    'text': 'Leaf kernel: every GSER leaf encoder under contract equals its RFC 3641 spec function (character '
+            'strings with doubled quotation marks, BOOLEAN, INTEGER, NULL, ENUMERATED, CHOICE), BIT STRING length '
+            '(one digit per bit, bin() modelled), every present SEQUENCE component is written (ghost counters), and '
+            'the top-level wrapper embeds the value text unchanged; all obligations discharged.'},
 }
